@@ -146,6 +146,19 @@ PROPS = {
             dict(name="TestRandom", quick=3000, thorough=40000, shards_thorough=8),
         ],
     ),
+    "C16": dict(
+        pkg="c16", level="exploration",
+        technique="model-based property testing (rapid) of registration sequences vs graph reachability, exhaustive enumeration of short sequences, concurrent pairs under the race detector",
+        level_text="Registration/clear sequences are compared step by step with a reference graph (acceptance <=> no path back), every sequence of up to 3/4 registrations over 3 names is enumerated completely, and after each step upcasting of every stored type must terminate (observed through an application budget, not a timeout). Racing pairs are checked against both serial orders.",
+        level_note="Concurrent schedules are sampled (50 rounds per pair).",
+        crash_is_violation=True,
+        assumptions=COMMON_ASSUME + ["an event needing more than |names|+2 upcaster applications is looping (the registered graph has at most |names| nodes)"],
+        tests=[
+            dict(name="TestSequences", quick=8000, thorough=60000, shards_thorough=8),
+            dict(name="TestEnumSmall", quick=1, thorough=1, shards_quick=2, shards_thorough=16, rapid=False),
+            dict(name="TestConcurrentPairs", quick=300, thorough=3000, shards_thorough=4, race=True, shrinktime="5s"),
+        ],
+    ),
 }
 
 HOOK_COMMITS = ["99604d0"]
